@@ -12,10 +12,17 @@ META = {
     "proof_modules": ["PyodaProofs.C17"],
     "drivers": ["drv_text"],
     "theorems": [
-        "Pyoda.C17.isoDate_fixed_width", "Pyoda.C17.isoDate_sign_width_rule", "Pyoda.C17.isoDate_eq_py",
-        "Pyoda.C17.isoTime_fixed_width", "Pyoda.C17.fraction_no_trailing_zero", "Pyoda.C17.long_form_nine_digits",
-        "Pyoda.C17.isoTimeGeneral_eq_py", "Pyoda.C17.isoTime_eq_py_of_micros",
-        "Pyoda.C17.isoDateTime_shape", "Pyoda.C17.instant_ends_in_Z", "Pyoda.C17.offset_shape",
+        "Pyoda.C17.isoDate_fixed_width",
+        "Pyoda.C17.isoDate_sign_width_rule",
+        "Pyoda.C17.isoDate_eq_py",
+        "Pyoda.C17.isoTime_fixed_width",
+        "Pyoda.C17.isoDateTime_shape",
+        "Pyoda.C17.fraction_no_trailing_zero",
+        "Pyoda.C17.long_form_nine_digits",
+        "Pyoda.C17.isoTimeGeneral_eq_py",
+        "Pyoda.C17.isoTime_eq_py_of_micros",
+        "Pyoda.C17.instant_ends_in_Z",
+        "Pyoda.C17.offset_shape",
         "Pyoda.C17.offset_whole_minutes_eq_py",
     ],
     "trusted_base": [
